@@ -16,6 +16,7 @@ import (
 	"strings"
 	"time"
 
+	"github.com/gaissmai/bart"
 	"github.com/slackhq/nebula/cert"
 	"github.com/slackhq/nebula/header"
 	"pgregory.net/rapid"
@@ -51,6 +52,7 @@ type nsNodeSpec struct {
 	nets     []netip.Prefix
 	versions []cert.Version
 	udp      netip.AddrPort
+	notAfter time.Time
 	claims   int // nsSelfClaim: index of the node whose address is claimed
 	poses    int // nsAddrThief: index of the node it is mistaken for
 }
@@ -87,6 +89,7 @@ type nsWorld struct {
 
 type nsInjected struct {
 	tag       string
+	dstAddr   netip.Addr
 	src, dst  int
 	pkt       []byte
 	delivered int
@@ -141,24 +144,23 @@ func nsGenWorld(rt *rapid.T, s *nsSim, o nsWorldOpts) *nsWorld {
 	firstHost := len(w.specs)
 	for h := 0; h < nh; h++ {
 		kind := nsHonest
-		if o.evil && h >= 2 && rapid.IntRange(0, 1).Draw(rt, fmt.Sprintf("h%d.evil", h)) == 1 {
-			kind = nsKind(rapid.IntRange(1, 5).Draw(rt, fmt.Sprintf("h%d.kind", h)))
+		if o.evil && h >= 1 && rapid.IntRange(0, 9).Draw(rt, fmt.Sprintf("h%d.evil", h)) < 6 {
+			kind = rapid.SampledFrom([]nsKind{nsAddrThief, nsAddrThief, nsSelfClaim, nsSelfClaim, nsUntrusted, nsExpired, nsBlocklisted}).Draw(rt, fmt.Sprintf("h%d.kind", h))
 		}
 		sp := add(fmt.Sprintf("h%d", h), nsHost, kind)
 		switch kind {
 		case nsSelfClaim:
-			sp.claims = firstHost + rapid.IntRange(0, 1).Draw(rt, "claims")
-			// its certificate lists its own address and the victim's (v2 multi-address) or only the victim's
+			// claims the address of an earlier host
+			sp.claims = firstHost + rapid.IntRange(0, h-1).Draw(rt, "claims")
 			victim := w.specs[sp.claims].nets[0]
 			if rapid.Bool().Draw(rt, "claimOnly") {
 				sp.nets = []netip.Prefix{victim}
-				sp.versions = []cert.Version{cert.Version2}
 			} else {
 				sp.nets = []netip.Prefix{sp.nets[0], victim}
-				sp.versions = []cert.Version{cert.Version2}
 			}
+			sp.versions = []cert.Version{cert.Version2}
 		case nsAddrThief:
-			sp.poses = firstHost + rapid.IntRange(0, 1).Draw(rt, "poses")
+			sp.poses = firstHost + rapid.IntRange(0, h-1).Draw(rt, "poses")
 		}
 	}
 
@@ -171,8 +173,10 @@ func nsGenWorld(rt *rapid.T, s *nsSim, o nsWorldOpts) *nsWorld {
 		case nsUntrusted:
 			ca = w.cas[1]
 		case nsExpired:
-			before, after = now.Add(-10*time.Hour), now.Add(-time.Hour)
+			// valid when the node starts, expires a few (virtual) seconds into the history
+			before, after = now.Add(-10*time.Hour), now.Add(time.Duration(rapid.SampledFrom([]int{2, 8, 25}).Draw(rt, sp.name+".expiresIn"))*time.Second)
 		}
+		sp.notAfter = time.Unix(after.Unix(), 0)
 		idents[i] = nsNewIdent(ca, sp.name, sp.versions, sp.nets, nil, []string{"g" + sp.name}, before, after)
 		for _, c := range idents[i].certs {
 			fp, _ := c.Fingerprint()
@@ -219,10 +223,11 @@ func nsGenWorld(rt *rapid.T, s *nsSim, o nsWorldOpts) *nsWorld {
 					target = thief.udp
 				}
 			}
-			if other.kind == nsSelfClaim && other.claims == i {
-				continue
-			}
 			for _, n := range other.nets {
+				if other.kind == nsSelfClaim && other.claims == i && n == sp.nets[0] {
+					// the victim does not map its own address
+					continue
+				}
 				if _, dup := shm[n.Addr().String()]; !dup {
 					shm[n.Addr().String()] = []string{target.String()}
 				}
@@ -253,6 +258,18 @@ func nsGenWorld(rt *rapid.T, s *nsSim, o nsWorldOpts) *nsWorld {
 				continue
 			}
 			rt.Fatalf("building node %s (%v): %v", sp.name, sp.kind, err)
+		}
+		if sp.kind == nsSelfClaim {
+			// The claimant is adversary-controlled: unlike an honest node it does not refuse to talk to
+			// the node whose address its certificate lists (it pretends not to own that address), so
+			// the victim's own initiator-side refusal is what is exercised.
+			tbl := new(bart.Lite)
+			for _, p := range sp.nets {
+				if p != w.specs[sp.claims].nets[0] {
+					tbl.Insert(netip.PrefixFrom(p.Addr(), p.Addr().BitLen()))
+				}
+			}
+			n.ctrl.f.myVpnAddrsTable = tbl
 		}
 		w.nodes = append(w.nodes, n)
 	}
@@ -330,7 +347,7 @@ func (w *nsWorld) sendTagged(src, dst int, dstAddr netip.Addr, size int) *nsInje
 		return nil
 	}
 	pkt := nsUDP(srcAddr, dstAddr, uint16(10000+w.nextTag%5000), 7777, payload)
-	rec := &nsInjected{tag: tag, src: src, dst: dst, pkt: pkt, sent: 1}
+	rec := &nsInjected{tag: tag, src: src, dst: dst, dstAddr: dstAddr, pkt: pkt, sent: 1}
 	w.injected[tag] = rec
 	w.s.injectTun(w.nodes[src], pkt)
 	return rec
@@ -368,8 +385,14 @@ func (w *nsWorld) checkTun(rt *rapid.T) (delivered int) {
 			if rec == nil {
 				rt.Fatalf("node %s delivered a packet with unknown tag %q", n.name, tag)
 			}
-			if rec.dst != i {
-				rt.Fatalf("node %s delivered packet %q that was addressed to node %d", n.name, tag, rec.dst)
+			certified := false
+			for _, a := range n.id.addrs() {
+				if a == rec.dstAddr {
+					certified = true
+				}
+			}
+			if !certified {
+				rt.Fatalf("node %s delivered packet %q that was addressed to %v (node %d), an address it is not certified for", n.name, tag, rec.dstAddr, rec.dst)
 			}
 			if !bytes.Equal(rec.pkt, b) {
 				rt.Fatalf("node %s delivered an altered packet %q:\n got %x\nwant %x", n.name, tag, b, rec.pkt)
@@ -387,8 +410,12 @@ func (w *nsWorld) checkTun(rt *rapid.T) (delivered int) {
 // trusted reports whether identity i is acceptable to honest nodes right now.
 func (w *nsWorld) trusted(i int) bool {
 	switch w.specs[i].kind {
-	case nsUntrusted, nsExpired, nsBlocklisted:
+	case nsUntrusted, nsBlocklisted:
 		return false
+	case nsExpired:
+		// one second of slack: the check runs at the end of a step, and the fair phase advances
+		// virtual time in 100 ms steps between deliveries
+		return !time.Now().After(w.specs[i].notAfter.Add(time.Second))
 	}
 	return true
 }
@@ -403,7 +430,7 @@ func (w *nsWorld) checkHostmaps(rt *rapid.T) (tunnels, fresh int) {
 		hm := x.ctrl.f.hostMap
 		hm.RLock()
 		own := map[netip.Addr]bool{}
-		for _, a := range x.id.addrs() {
+		for _, a := range w.ownAddrs(xi) {
 			own[a] = true
 		}
 		seenHI := map[*HostInfo]bool{}
@@ -426,7 +453,7 @@ func (w *nsWorld) checkHostmaps(rt *rapid.T) (tunnels, fresh int) {
 			}
 			for _, h := range list {
 				seenHI[h] = true
-				if msg := w.checkTunnelBinding(x, a, h); msg != "" {
+				if msg := w.checkTunnelBinding(xi, a, h); msg != "" {
 					hm.RUnlock()
 					rt.Fatalf("node %s, address %v: %s", x.name, a, msg)
 				}
@@ -470,7 +497,20 @@ func (w *nsWorld) checkHostmaps(rt *rapid.T) (tunnels, fresh int) {
 	return
 }
 
-func (w *nsWorld) checkTunnelBinding(x *nsNode, a netip.Addr, h *HostInfo) string {
+// ownAddrs lists the addresses node i treats as its own. For the adversarial own-address claimant
+// that excludes the claimed address (it deliberately talks to the victim).
+func (w *nsWorld) ownAddrs(i int) []netip.Addr {
+	var r []netip.Addr
+	for _, p := range w.specs[i].nets {
+		if w.specs[i].kind == nsSelfClaim && p == w.specs[w.specs[i].claims].nets[0] {
+			continue
+		}
+		r = append(r, p.Addr())
+	}
+	return r
+}
+
+func (w *nsWorld) checkTunnelBinding(xi int, a netip.Addr, h *HostInfo) string {
 	if h.ConnectionState == nil {
 		return "tunnel without a completed handshake (no connection state)"
 	}
@@ -490,7 +530,7 @@ func (w *nsWorld) checkTunnelBinding(x *nsNode, a netip.Addr, h *HostInfo) strin
 		if n.Addr() == a {
 			lists = true
 		}
-		for _, o := range x.id.addrs() {
+		for _, o := range w.ownAddrs(xi) {
 			if o == n.Addr() {
 				return fmt.Sprintf("tunnel whose certificate lists this node's own address %v", o)
 			}
